@@ -497,7 +497,7 @@ Definition liquidate (e : env) (s : state) (k b : nat) : res state :=
 Definition util_ratio (cash borrows reserves : Z) : res Z :=     (* Dec arguments *)
   if borrows =? 0 then ret 0 else
   let ts := cash + borrows - reserves in
-  if ts <? 0 then ret PREC else
+  if ts <=? 0 then ret PREC else      (* !totalSupply.IsPositive() *)
   x <- dquo borrows ts ;; ret (Z.min PREC x).
 
 Definition borrow_rate (m : market) (cash borrows reserves : Z) : res Z :=
